@@ -9,37 +9,44 @@ Functions under contract (all obligations generated from the source in the tree 
     RegressionAdjustment._get_finite    finite_i[r] <=> (all c. finite X[r,c]) and finite theta_i[r]
     RegressionAdjustment._pairs         yields (X[finite_i, :], theta_i[finite_i]) for i = 0..p-1 in order
     RegressionAdjustment.fit            (real _get_finite, _pairs, _fit1 inlined; _input_variables by its contract; the regression class is a
-                                        recording stub) model i is constructed with the stored keyword arguments and fitted exactly once, on
-                                        exactly (X[finite_i], theta_i[finite_i]); _X, _sample, _parameter_names, _fitted are set as documented
+                                        recording stub) after fit the object holds exactly the models of THIS fit: model i constructed with the stored
+                                        keyword arguments and fitted exactly once, on exactly (X[finite_i], theta_i[finite_i]); _X, _sample,
+                                        _parameter_names, _fitted set as documented.  Cases: fresh object / object that was fitted before.
     LinearAdjustment._adjust            out[j] = theta_i(r) - sum_c X(r,c) * coef_(c) with r = the j-th finite row; corollary: X(r,:) = 0 => out[j] = theta_i(r)
-    RegressionAdjustment.adjust         outputs[name_i] = _adjust(i, theta_i[finite_i], regression_models[i]); Sample(method_name, outputs, parameter_names)
-    adjust_posterior / _get_adjustment  plumbing: 'linear' -> a fresh LinearAdjustment, an instance is used as given; fit(...) then adjust()
+    RegressionAdjustment.adjust         outputs[name_i] = _adjust(i, theta_i[finite_i], regression_models[i]); Sample(method_name, outputs, parameter_names);
+                                        ValueError iff not fitted
+    adjust_posterior                    the whole pipeline on classes assembled from the REAL method bodies: top-level clause of the property
   elfi/methods/model_selection.py
-    compare_models                      (model lists of CONCRETE length 2 and 3, symbolic sample sizes / discrepancies / n_sim / prior weights)
-                                        p_i = |{t < n_min : low_i <= inds[t] < up_i}| / n_sim_i * prior_i with low_i = sum_{j<i} n_j (cardinality
-                                        witnessed by an explicit bijection), result = p / sum(p), sums to one, inds = the first n_min entries of a
-                                        permutation that sorts the concatenated discrepancies (=> jointly smallest, free choice among ties)
-  ghost lemmas (lemmas/c17_lemmas.py): extensionality of prefix sums, the sign convention cancels, two calls of the REAL compare_models
-  on a swapped model list give swapped probabilities when there is no tie at the cut.
+    compare_models                      (a) model list of ANY length M >= 1 (symbolic list proxy), the counting loop under its invariant:
+                                        up_bound = sum of n_j over the visited models, p_j = |{t < n_min : LOW(j) <= inds[t] < LOW(j+1)}| / n_sim_j * prior_j
+                                        (cardinality witnessed by an explicit bijection kept as ghost state), result = p / sum(p) and sums to one
+                                        whenever sum(p) != 0, n_min = smallest size, order over the concatenation in list order, jointly smallest;
+                                        (b) python lists of CONCRETE length 2 and 3 (loop unrolled natively): the same clauses plus every division
+                                        obligation: non-empty samples, n_sim >= 1, positive prior weights => sum(p) > 0, 0 <= probability <= 1.
+  ghost lemmas (lemmas/c17_lemmas.py): extensionality / linearity / monotonicity of prefix sums, the sign convention cancels, counts do not
+  depend on the list order when there is no tie at the cut (pigeonhole instances), and two calls of the REAL compare_models on a permuted
+  model list give permuted probabilities (2-lists: the swap; 3-lists: both adjacent transpositions and a 3-cycle).
 
 Spec functions (independent of the code): FIN (uninterpreted finiteness predicate on float values - covers inf and nan alike),
-DOT(r, c) = sum_{c' < c} X(r,c') * b(c') by its recursion equations, block offsets low_i computed from the inputs.
+DOT(r, c) = sum_{c' < c} X(r,c') * b(c') by its recursion equations, block offsets LOW(j) = prefix sums of the sample sizes,
+W(c, j) = c / n_sim_j * prior_j.
 """
 MANIFEST = {
     'category': 'proof',
     'text': 'Every function of the regression adjustment (regressor matrix, finite masks, pairing, fitting, theta - X.b with the zero-row corollary, '
-            'result assembly, adjust_posterior plumbing) and compare_models (counting formula with offsets, division by n_sim, prior weight, '
-            'normalisation to one, jointly-smallest selection; model lists of length 2 and 3 with symbolic sizes) is verified against the formulas '
-            'of the property for all array lengths and contents over the reals; obligations are generated from the current source and discharged '
-            'by z3/cvc5.  The swap lemma runs the real compare_models twice.  sklearn LinearRegression is an assumed library (recording stub; '
-            'least-squares slope sanity-tested against numpy.linalg.lstsq each run).  Bounded stand-in on the real code: adjust_posterior against '
-            'numpy.linalg.lstsq with non-finite entries, zero rows and affine re-expressions; compare_models against an independent recomputation.',
+            'result assembly, the adjust_posterior pipeline) and compare_models (counting loop under its invariant for any number of models: offsets, '
+            'count by bijection witness, division by n_sim, prior weight, normalisation to one, jointly-smallest selection) is verified against the '
+            'formulas of the property for all array lengths and contents over the reals; obligations are generated from the current source and '
+            'discharged by z3/cvc5.  Permutation covariance is a two-call lemma on the real compare_models (no tie at the cut).  sklearn '
+            'LinearRegression is an assumed library (recording stub; least-squares slope sanity-tested against numpy.linalg.lstsq each run).  '
+            'Bounded stand-in on the real code: adjust_posterior against numpy.linalg.lstsq with non-finite entries, zero rows, affine '
+            're-expressions and re-used adjustment objects; compare_models against an independent tie-aware recomputation.',
     'note': 'Not decided by proof: invariance under an invertible affine re-expression of the summaries (a property of OLS with intercept, i.e. of the '
-            'assumed sklearn contract; checked in the bounded stand-in only).  Floats idealised as reals; python lists of names / models have '
-            'concrete lengths (1-3); permutation covariance proved for transpositions of a 2-list and adjacent transpositions of a 3-list under '
-            '"no tie at the cut" (with ties the result is not a function of the multiset: stated, witnessed in the bounded stand-in).',
-    'technique': 'deductive: VCs from the real AST executed over symbolic arrays (pyvc), ghost lemma functions, z3/cvc5; Lean-certified pigeonhole '
-                 'instances; bounded stand-in: random small samples vs numpy.linalg.lstsq / independent recomputation',
+            'assumed sklearn contract; checked in the bounded stand-in only).  Floats idealised as reals; lists of summary / parameter names have '
+            'concrete lengths (1-3); division obligations and permutation covariance are proved for model lists of length 2 and 3 (all other '
+            'compare_models clauses for any length); with ties at the cut the result is not a function of the multiset (stated; counted in the bounded stand-in).',
+    'technique': 'deductive: VCs from the real AST executed over symbolic arrays (pyvc), loop invariant with ghost state, ghost lemma functions, z3/cvc5; '
+                 'Lean-certified pigeonhole instances; bounded stand-in: random small samples vs numpy.linalg.lstsq / independent recomputation',
 }
 
 import builtins as _bi
@@ -337,9 +344,9 @@ class Fit(Contract):
     prop = 'C17'
     fin = 3
 
-    def __init__(self, p, names_given):
-        self.p, self.names_given = p, names_given
-        self.label = '%d-parameters,%s' % (p, 'names-given' if names_given else 'names-default')
+    def __init__(self, p, names_given, refit=False):
+        self.p, self.names_given, self.refit = p, names_given, refit     # refit: the object was fitted before (to another sample)
+        self.label = '%d-parameters,%s%s' % (p, 'names-given' if names_given else 'names-default', ',fitted-before' if refit else '')
 
     def env(self, vc):
         return {'np': np_module(), 'all': vc_all}
@@ -362,6 +369,11 @@ class Fit(Contract):
                                          _fit1=inline(vc, PP + 'RegressionAdjustment._fit1')))
         s.Xarr = SArr.from_fn(lambda r, c: x.Xf(r, c), (n, m), 'real')
         s.self, s.Xf, s.th, s.x = self_, x.Xf, x.th, x
+        if self.refit:
+            n0 = vc.fresh_int('n_before', size=True)
+            self_._X, self_._sample, self_._parameter_names = SArr.fresh('X_before', (n0, m), 'real'), object(), list(x.names)
+            self_._finite, self_._fitted = fresh_masks(n0, self.p), True
+            self_.regression_models = [make_object('ModelFittedBefore') for _ in range(self.p)]
         s.model, s.summary_names = object(), ['s0', 's1']
         s.given = list(x.names) if self.names_given else None
         if not self.names_given:
@@ -369,7 +381,7 @@ class Fit(Contract):
         return s, (self_, x.sample, s.model, s.summary_names), dict(parameter_names=s.given)
 
     def requires(self, s):
-        return [s.n >= 0, s.m >= 0]          # and: a fresh adjustment object (regression_models == [] - see ASSUMPTIONS)
+        return [s.n >= 0, s.m >= 0]
 
     def ensures(self, s, result):
         me = s.self
@@ -378,7 +390,7 @@ class Fit(Contract):
                ('the sample is stored; parameter names are the given ones, else those of the sample',
                 z3.BoolVal(me._sample is s.x.sample and (me._parameter_names is s.given if self.names_given else me._parameter_names is s.x.sample.parameter_names))),
                ('the object is marked fitted', z3.BoolVal(me._fitted is True)),
-               ('one regression model per parameter, each constructed with the stored keyword arguments and fitted exactly once',
+               ('the object holds exactly one regression model per parameter - those of THIS fit, in order - each constructed with the stored keyword arguments and fitted exactly once',
                 z3.BoolVal(len(s.models) == self.p and len(me.regression_models) == self.p and
                            _bi.all(a is b_ for a, b_ in zip(me.regression_models, s.models)) and
                            _bi.all(mm.kw == {'fit_intercept': 'kw-sentinel'} and len(mm.fits) == 1 for mm in s.models)))]
@@ -405,13 +417,25 @@ def dot_def(DOT, Xf, bf, n, m):
 def dot_row_lemmas(vc, rec, G, j0, row_x, bf, m, D):
     """connect the code's X[...].dot(b) (library spec: per-row prefix sums `ps`) at output row j0 with the definitional sum D(c)
     of row_x(c) * b(c): pointwise equal summands (cut), extensionality instance (LemmaSumExt), equality of the totals (cut);
-    and the zero-row instance: all-zero summands sum to zero"""
+    and the zero-row instance: all-zero summands sum to zero.  With a CONCRETE number of columns both sums are unfolded instead."""
     arr, ps, res = rec['arr'], rec['ps'], rec['res']
+    mc = conc(m) if isinstance(m, z3.ExprRef) else m
+    if mc is not None:
+        vc.cut('the product array has one column per regressor', z3.Implies(G, arr.shape[1] == mc))
+        vc.cut('both sums start at zero', z3.Implies(G, z3.And(ps(j0, 0) == 0, D(0) == 0)))
+        for c in range(mc):
+            vc.cut('column %d: the product is X(r,c) * coef_(c); unfold both sums' % c,
+                   z3.Implies(G, z3.And(arr.at(j0, c) == row_x(c) * bf(c), ps(j0, c + 1) == ps(j0, c) + arr.at(j0, c), D(c + 1) == D(c) + row_x(c) * bf(c))))
+        vc.cut('dot(X[finite], coef_)[j] = sum_c X(r,c) * coef_(c)', z3.Implies(G, res.at(j0) == D(mc)))
+        Z = z3.And([row_x(c) == 0 for c in range(mc)] + [z3.BoolVal(True)])
+        vc.cut('a zero row of regressors contributes nothing', z3.Implies(z3.And(G, Z), D(mc) == 0))
+        return Z
     vc.cut('row j of the product array is X(r,c) * coef_(c), r = the j-th selected row',
            z3.Implies(G, z3.And(arr.shape[1] == m, forall_range(0, m, lambda c: arr.at(j0, c) == row_x(c) * bf(c), 'c'))))
     vc.assume(z3.Implies(G, use(stmt_sum_ext(m, lambda c: arr.at(j0, c), lambda c: row_x(c) * bf(c), lambda c: ps(j0, c), D))))
     vc.cut('dot(X[finite], coef_)[j] = sum_c X(r,c) * coef_(c)', z3.Implies(G, res.at(j0) == D(m)))
     Z = forall_range(0, m, lambda c: row_x(c) == 0, 'c')
+    vc.cut('a zero row of regressors has zero products', z3.Implies(z3.And(G, Z), forall_range(0, m, lambda c: row_x(c) * bf(c) == 0, 'c')))
     vc.assume(z3.Implies(z3.And(G, Z), use(stmt_sum_ext(m, lambda c: row_x(c) * bf(c), lambda c: z3.RealVal(0), D, lambda c: z3.RealVal(0)))))
     vc.cut('a zero row of regressors contributes nothing', z3.Implies(z3.And(G, Z), D(m) == 0))
     return Z
@@ -1164,9 +1188,310 @@ class PermutedModels(Contract):
         return cm_witness(None, model, self.M, self.priors)
 
 
-CONTRACTS = [InputVariables(1), InputVariables(3), GetFinite(1), GetFinite(2), Pairs(2), Fit(1, True), Fit(2, False),
+# ---------------------------------------------------------------- compare_models for ANY number of models (loop invariant)
+class SymSeq(Sym):
+    """python list of symbolic length M whose j-th element is gen(j) (a proxy); produced by a comprehension over a ModelList"""
+
+    def __init__(self, M, gen):
+        self.M, self.gen, self.t = M, gen, None
+
+    def _vc_len(self):
+        return SInt(self.M)
+
+    def __iter__(self):
+        raise OutOfSubset('python iteration over a list of symbolic length')
+
+
+class ModelList(Sym):
+    """the list of Sample objects: symbolic length M >= 1; element j has n_samples = n(j), n_sim = sim(j), discrepancies = d(j, .) of length n(j)"""
+
+    def __init__(self, M, nf, simf, df):
+        self.M, self.nf, self.simf, self.df, self.t = M, nf, simf, df, None
+
+    def elem(self, j):
+        return make_object('SampleStub', attrs=dict(n_samples=SInt(self.nf(j)), n_sim=SInt(self.simf(j)),
+                                                    discrepancies=SArr.from_fn((lambda t: self.df(j, t)), (self.nf(j),), 'real')))
+
+    def _vc_len(self):
+        return SInt(self.M)
+
+    def __getitem__(self, i):
+        j = T(i)
+        cur().oblige('call-pre[list index in range]', z3.And(0 <= j, j < self.M))
+        return self.elem(j)
+
+    def _vc_listcomp(self, elt, cond):
+        if cond is not None:
+            raise OutOfSubset('filtered comprehension over the model list')
+        return SymSeq(self.M, lambda j: elt(self.elem(j)))
+
+    def __iter__(self):
+        raise OutOfSubset('python iteration over a list of symbolic length')
+
+
+def seq_min(*a):
+    """min() of a non-empty sequence of integers: a lower bound that is attained (at the recorded index `arg`)"""
+    if len(a) == 1 and isinstance(a[0], SymSeq):
+        q = a[0]
+        vc = cur()
+        vc.oblige('call-pre[min of a non-empty sequence]', q.M >= 1)
+        mn, jm = vc.fresh_int('min'), vc.fresh_int('argmin')
+        vc.assume(forall_range(0, q.M, lambda j: mn <= T(q.gen(j)), 'j'), 0 <= jm, jm < q.M, mn == T(q.gen(jm)))
+        vc.libcall('min', dict(min=mn, arg=jm))
+        return SInt(mn)
+    from pyvc import pyspec
+    return pyspec.vc_min(*a)
+
+
+def seq_concatenate_at(OFF):
+    """numpy.concatenate of a list of M 1-D arrays laid out at the offsets OFF (the caller's prefix sums of the lengths: call-pre OFF(0) = 0,
+    OFF(j+1) = OFF(j) + len(j) - these equations determine the offsets): total length OFF(M) and result[OFF(j) + t] = arrays[j][t] for t < len(j)"""
+    def seq_concatenate(seq, axis=0):
+        if not isinstance(seq, SymSeq):
+            return npspec.concatenate(seq, axis)
+        vc = cur()
+        M = seq.M
+        probe = seq.gen(z3.IntVal(0))
+        if not isinstance(probe, SArr) or probe.ndim != 1:
+            raise OutOfSubset('concatenate over a list whose elements are not 1-D arrays')
+        ln = lambda j: seq.gen(j).shape[0]
+        vc.oblige('call-pre[concatenate: at least one array]', M >= 1)
+        vc.oblige('call-pre[concatenate: the offsets are the prefix sums of the lengths]',
+                  z3.And(OFF(0) == 0, forall_range(0, M, lambda j: z3.And(OFF(j + 1) == OFF(j) + ln(j), ln(j) >= 0), 'j')))
+        cat = vc.fresh_fn('cat', I, R)
+        vc.assume(forall_range(0, M, lambda j: forall_range(0, ln(j), lambda t: cat(OFF(j) + t) == seq.gen(j).at(t), 't'), 'j'))
+        out = SArr(Cell(lambda g: cat(g), (OFF(M),), 'real'))
+        vc.libcall('np.concatenate', dict(res=out, seq=seq))
+        return out
+    return seq_concatenate
+
+
+class GhostCounts:
+    """ghost record of the counting step of every visited model: CNT(j), and the bijection (SEL(j, .), RANK(j, .)) that witnesses it"""
+
+    def __init__(self):
+        z = lambda *a: z3.IntVal(0)
+        self.CNT, self.SEL, self.RANK = z, z, z
+
+    def _vc_havoc(self, name):
+        vc = cur()
+        c, se, ra = vc.fresh_fn('CNT', I, I), vc.fresh_fn('SEL', I, I, I), vc.fresh_fn('RANK', I, I, I)
+        self.CNT, self.SEL, self.RANK = (lambda j: c(j)), (lambda j, u: se(j, u)), (lambda j, t: ra(j, t))
+
+
+def stmt_scale_sum(n, a, c, A, Bp):
+    """linearity: sum_i a(i)/c = (sum_i a(i))/c   (proved: LemmaScaleSum)"""
+    hyp = z3.And(n >= 0, c != 0, prefix_def(A, n, a), prefix_def(Bp, n, lambda i: a(i) / c))
+    return hyp, Bp(n) == A(n) / c
+
+
+def stmt_monotone_cum(n, a_, b_, v, cum):
+    """prefix sums of non-negative terms are monotone (proved: LemmaMonotoneCum)"""
+    hyp = z3.And(0 <= a_, a_ <= b_, b_ <= n, forall_range(0, n, lambda i: v(i) >= 0, 'i'), prefix_def(cum, n, v))
+    return hyp, cum(a_) <= cum(b_)
+
+
+class LemmaMonotoneCum(Contract):
+    """prefix sums of non-negative terms are monotone"""
+    target = '@verif/lemmas/c17_lemmas.py::lemma_monotone_cum'
+    prop = 'C17'
+    fin = 5
+
+    def setup(self, vc):
+        n, a_, b_ = z3.Ints('n a b')
+        v, cum = [z3.Function(x, I, R) for x in ('v', 'cum')]
+        hyp, goal = stmt_monotone_cum(n, a_, b_, v, cum)
+        vc.fin_bounds.extend([n, a_, b_])
+        s = NS(n=n, a=a_, b=b_, v=v, cum=cum, hyp=hyp, goal=goal)
+        vc._s = s
+        return s, (SInt(a_), SInt(b_)), {}
+
+    def env(self, vc):
+        s = vc._s
+
+        def inst(j):
+            j = T(j)
+            vc.assume(z3.Implies(z3.And(0 <= j, j < s.n), z3.And(s.cum(j + 1) == s.cum(j) + s.v(j), s.v(j) >= 0)))
+        return dict(inst=inst)
+
+    def requires(self, s):
+        return [s.hyp]
+
+    loops = {0: Loop(inv=lambda s, l: [z3.And(s.a <= T(l.j), T(l.j) <= s.b), s.cum(s.a) <= s.cum(T(l.j))])}
+
+    def ensures(self, s, result):
+        return [('cum(a) <= cum(b)', s.goal)]
+
+
+class LemmaScaleSum(Contract):
+    """linearity of a finite sum: sum_i a(i)/c = (sum_i a(i))/c"""
+    target = '@verif/lemmas/c17_lemmas.py::lemma_scale_sum'
+    prop = 'C17'
+    fin = 5
+
+    def setup(self, vc):
+        n = z3.Int('n')
+        c = z3.Real('c')
+        a, A, Bp = [z3.Function(x, I, R) for x in ('a', 'A', 'Bp')]
+        hyp, goal = stmt_scale_sum(n, a, c, A, Bp)
+        vc.fin_bounds.append(n)
+        s = NS(n=n, c=c, a=a, A=A, Bp=Bp, hyp=hyp, goal=goal)
+        vc._s = s
+        return s, (SInt(n),), {}
+
+    def env(self, vc):
+        s = vc._s
+
+        def inst(j):
+            j = T(j)
+            vc.assume(z3.Implies(z3.And(0 <= j, j < s.n), z3.And(s.A(j + 1) == s.A(j) + s.a(j), s.Bp(j + 1) == s.Bp(j) + s.a(j) / s.c)))
+        return dict(inst=inst)
+
+    def requires(self, s):
+        return [s.hyp]
+
+    loops = {0: Loop(inv=lambda s, l: [z3.And(0 <= T(l.j), T(l.j) <= s.n), s.Bp(T(l.j)) == s.A(T(l.j)) / s.c])}
+
+    def ensures(self, s, result):
+        return [('sum_i a(i)/c = (sum_i a(i))/c', s.goal)]
+
+
+class CompareModelsAnyM(Contract):
+    """the counting loop under its invariant, for a model list of ANY length M >= 1:
+       up_bound = sum of n_j over the visited models;  p_j = |{t < n_min : LOW(j) <= inds[t] < LOW(j+1)}| / n_sim_j * prior_j for every visited j.
+    Divisions are not checked here (the concrete-length contracts prove the normaliser positive); the normalisation clauses are stated
+    under sum_j p_j != 0."""
+    target = MS + 'compare_models'
+    prop = 'C17'
+    fin = 3
+    fin_range = 7
+    comprehensions = True
+    options = {'div_check': False}
+
+    def __init__(self, priors):
+        self.priors = priors
+        self.label = 'any-number-of-models,%s' % ('prior-weights' if priors else 'no-priors')
+
+    def setup(self, vc):
+        M = z3.Int('n_models')
+        nf, simf, df, LOW, pri = z3.Function('n', I, I), z3.Function('n_sim', I, I), z3.Function('d', I, I, R), z3.Function('LOW', I, I), z3.Function('prior', I, R)
+        vc.fin_bounds.append(M)
+        s = NS(M=M, nf=nf, simf=simf, df=df, LOW=LOW, pri=(pri if self.priors else (lambda j: z3.RealVal(1))), G=GhostCounts(),
+               models=ModelList(M, nf, simf, df))
+        # spec function W(c, j) := c / n_sim_j * prior_j, the unnormalised weight of model j when c of its draws are counted.  It is kept opaque
+        # in the quantified reasoning (no nonlinear arithmetic under quantifiers); its definition enters as the explicit instance at the point
+        # where the code computes the value (ghost step), and in full in finitised mode.
+        s.W = z3.Function('weight', I, I, R)
+        s.Wdef = lambda c, j: s.W(c, j) == z3.ToReal(c) / z3.ToReal(simf(j)) * s.pri(j)
+        if vc.fin is not None:
+            vc.axioms = [z3.And([s.Wdef(z3.IntVal(c), z3.IntVal(j)) for c in range(-1, self.fin_range) for j in range(-1, self.fin_range)])]
+        s.P = lambda j: s.W(s.G.CNT(j), j)
+        vc._s = s
+        return s, (s.models,), dict(model_priors=SArr.from_fn(lambda j: pri(j), (M,), 'real') if self.priors else None)
+
+    def env(self, vc):
+        return {'min': seq_min, 'np': npspec.module(extra={'concatenate': seq_concatenate_at(vc._s.LOW)})}
+
+    def requires(self, s):
+        bound = (lambda j: s.nf(j) < cur().fin) if cur().fin is not None else (lambda j: z3.BoolVal(True))      # finitised mode: small samples
+        return [s.M >= 1, forall_range(0, s.M, lambda j: z3.And(s.nf(j) >= 0, bound(j), s.simf(j) >= 1), 'j'),
+                s.LOW(0) == 0, forall_range(0, s.M, lambda j: s.LOW(j + 1) == s.LOW(j) + s.nf(j), 'j')]
+
+    def hooks(self, s):
+        def at_min(vc, rec):
+            """n_min = n(arg) <= LOW(arg+1) <= LOW(M): two instances of the monotonicity of prefix sums of non-negative terms (LemmaMonotoneCum)"""
+            jm, mn = rec['arg'], rec['min']
+            cum, v = (lambda j: z3.ToReal(s.LOW(j))), (lambda j: z3.ToReal(s.nf(j)))
+            vc.assume(use(stmt_monotone_cum(s.M, z3.IntVal(0), jm, v, cum)), use(stmt_monotone_cum(s.M, jm + 1, s.M, v, cum)))
+            vc.cut('0 <= n_min <= total number of draws', z3.And(0 <= mn, mn <= s.LOW(s.M)))
+        return {('min', 0): at_min}
+
+    # ---- loop 0: for i in range(n_models)
+    def _member(self, s, j):
+        p = cur().libcalls['np.argsort'][0]
+        return lambda t: z3.And(s.LOW(j) <= p.pi(t), p.pi(t) < s.LOW(j + 1))
+
+    def _inv(self, s, l):
+        vc = cur()
+        idx = l.it.index
+        nmin = vc.libcalls['min'][0]['min']
+        pm = l.p_models
+        return [('up_bound = sum of the sample sizes of the visited models', T(l.up_bound) == s.LOW(idx)),
+                ('one slot per model', z3.And(z3.BoolVal(isinstance(pm, SArr) and pm.ndim == 1), pm.shape[0] == s.M)),
+                ('visited model j: p_j = W(count_j, j) [= count_j / n_sim_j * prior_j]',
+                 forall_range(0, idx, lambda j: pm.at(j) == s.P(j), 'j')),
+                ('visited model j: count_j = |{t < n_min : LOW(j) <= inds[t] < LOW(j+1)}| (bijection witness)',
+                 forall_range(0, idx, lambda j: count_witness(s.G.CNT(j), lambda u: s.G.SEL(j, u), lambda t: s.G.RANK(j, t), nmin, self._member(s, j)), 'j'))]
+
+    def _ghost_step(self, s, l0, l1):
+        """ghost update after the body of iteration i: record the count of this iteration and its witness"""
+        vc = cur()
+        i0 = l0.h.i
+        rec = vc.libcalls['np.sum'][-1]
+        if 'mask' not in rec:
+            raise OutOfSubset('the count of the iteration is not the sum of a boolean mask')
+        k, sel, rank, msk = rec['mask'].select()
+        oc, os_, orr = s.G.CNT, s.G.SEL, s.G.RANK
+        s.G.CNT = lambda j: z3.If(j == i0, k, oc(j))
+        s.G.SEL = lambda j, u: z3.If(j == i0, sel(u), os_(j, u))
+        s.G.RANK = lambda j, t: z3.If(j == i0, rank(t), orr(j, t))
+        nmin = vc.libcalls['min'][0]['min']
+        vc.cut('the mask of this iteration has one entry per counted draw', z3.And(msk.shape[0] == nmin, k >= 0))
+        vc.cut('this iteration counts the draws of model i among the n_min smallest',
+               count_witness(k, sel, rank, nmin, self._member(s, i0)))
+        pm = l1.p_models
+        vc.assume(s.Wdef(k, i0))                  # definition of W, instantiated at (count of this iteration, i)
+        vc.cut('this iteration stores W(count_i, i) = count_i / n_sim_i * prior_i in slot i', pm.at(i0) == s.W(k, i0))
+        vc.cut('... and leaves the slots of the earlier models alone', forall_range(0, i0, lambda j: pm.at(j) == l0.h.pm.at(j), 'j'))
+
+    @property
+    def loops(self):
+        return {0: Loop(inv=self._inv, modifies=lambda s, l: [l.p_models, s.G], at_head=lambda s, l: dict(i=l.it.index, pm=l.p_models.snapshot()), ghost_step=self._ghost_step)}
+
+    def lemmas_at_exit(self, s, result):
+        vc = cur()
+        recs = [r for r in vc.libcalls.get('np.sum', []) if 'ps' in r]
+        if len(recs) != 1 or 0 not in s.rt.loopstate:
+            return []
+        rec = recs[-1]
+        PS, RS = vc.fresh_fn('PS', I, R), vc.fresh_fn('RS', I, R)
+        vc.assume(prefix_def(PS, s.M, s.P))                                   # definitional: PS(j) = sum_{j' < j} p_j'
+        S = PS(s.M)
+        vc.assume(prefix_def(RS, s.M, lambda j: s.P(j) / S))                  # definitional: RS(j) = sum_{j' < j} p_j' / S
+        vc.cut('after the loop every model was visited', forall_range(0, s.M, lambda j: rec['arr'].at(j) == s.P(j), 'j'))
+        vc.assume(use(stmt_sum_ext(s.M, lambda j: rec['arr'].at(j), s.P, rec['ps'], PS)))          # LemmaSumExt
+        vc.cut('the normaliser is sum_j p_j', T(rec['res']) == S)
+        vc.assume(z3.Implies(S != 0, use(stmt_scale_sum(s.M, s.P, S, PS, RS))))                    # LemmaScaleSum
+        vc.cut('linearity of the sum', z3.Implies(S != 0, RS(s.M) == S / S))
+        s.S, s.RS = S, RS
+        return []
+
+    def ensures(self, s, result):
+        vc = cur()
+        if not s.has('S') or not isinstance(result, SArr) or result.ndim != 1 or 'np.concatenate' not in vc.libcalls:
+            return [('the result is a vector computed by one counting loop and one normalisation', z3.BoolVal(False))]
+        p = vc.libcalls['np.argsort'][0]
+        nmin = vc.libcalls['min'][0]['min']
+        N = s.LOW(s.M)
+        out = [('n_min is the smallest sample size', z3.And(forall_range(0, s.M, lambda j: nmin <= s.nf(j), 'j'), exists_range(0, s.M, lambda j: nmin == s.nf(j), 'j'))),
+               ('the order is taken over the concatenation in list order: position LOW(j) + t holds draw t of model j',
+                z3.And(p.n == N, forall_range(0, s.M, lambda j: forall_range(0, s.nf(j), lambda t: p.of.at(s.LOW(j) + t) == s.df(j, t), 't'), 'j'))),
+               ('the n_min counted draws are jointly smallest (free choice among ties)',
+                forall2_range(0, N, lambda t, g: z3.Implies(z3.And(t < nmin, p.pinv(g) >= nmin), p.of.at(p.pi(t)) <= p.of.at(g)))),
+               ('count_j = |{t < n_min : LOW(j) <= inds[t] < LOW(j+1)}| for every model (bijection witness)',
+                forall_range(0, s.M, lambda j: count_witness(s.G.CNT(j), lambda u: s.G.SEL(j, u), lambda t: s.G.RANK(j, t), nmin, self._member(s, j)), 'j')),
+               ('probability_j = p_j / sum p with p_j = W(count_j, j) := count_j / n_sim_j * prior_j (whenever sum p != 0)',
+                z3.And(result.shape[0] == s.M, z3.Implies(s.S != 0, forall_range(0, s.M, lambda j: result.at(j) == s.P(j) / s.S, 'j')))),
+               ('the probabilities sum to one (whenever sum p != 0): RS = prefix sums of p_j / sum p', z3.Implies(s.S != 0, s.RS(s.M) == 1))]
+        return out
+
+    def witness(self, vc, model, ob):
+        return dict(function='compare_models', M='symbolic')
+
+
+CONTRACTS = [InputVariables(1), InputVariables(3), GetFinite(1), GetFinite(2), Pairs(2), Fit(1, True), Fit(2, False), Fit(1, False, refit=True),
              Adjust1(), Adjust(2), AdjustPosterior(1, 'linear'), AdjustPosterior(2, 'instance'),
-             LemmaSumExt(), LemmaSignCancels(), LemmaCountsAgree(), PermutedModels((1, 0), True), PermutedModels((1, 0), False),
+             LemmaSumExt(), LemmaSignCancels(), LemmaScaleSum(), LemmaMonotoneCum(), CompareModelsAnyM(False), CompareModelsAnyM(True), LemmaCountsAgree(), PermutedModels((1, 0), True), PermutedModels((1, 0), False),
              PermutedModels((1, 0, 2), True), PermutedModels((0, 2, 1), True), PermutedModels((2, 0, 1), False),
              CompareModels(2, False), CompareModels(2, True), CompareModels(3, False), CompareModels(3, True), CompareModels(3, True, guarded=True)]
 TRUSTED_BASE = ['sklearn.linear_model.LinearRegression (assumed library, recording stub): fit(X, y) returns the object itself and sets coef_ to the '
@@ -1174,7 +1499,9 @@ TRUSTED_BASE = ['sklearn.linear_model.LinearRegression (assumed library, recordi
                 'including coef_(-X, y) = -coef_(X, y))',
                 'numpy: stack of 1-D arrays along axis 1, isfinite elementwise (uninterpreted finiteness predicate), boolean-mask row selection = '
                 'increasing enumeration of the True entries, sum of a boolean array = their number, dot = per-row sum of products, argsort = a '
-                'permutation that sorts ascending (tie order unspecified), concatenate, basic slicing (pyvc.npspec / local specs; sanity-tested)',
+                'permutation that sorts ascending (tie order unspecified), concatenate (for a list of symbolic length: block j of the result starts at the '
+                'prefix sum of the earlier lengths, which the recursion off(0)=0, off(j+1)=off(j)+len(j) determines), basic slicing (pyvc.npspec / local specs; sanity-tested)',
+                'python min() of a non-empty sequence: a lower bound that is attained',
                 "python: all() is the conjunction of its elements' truth values; list.append / dict insertion order",
                 'Lean-certified pigeonhole on initial segments (lemmas/L1.lean), used as explicit instances in the swap lemma',
                 'pyvc engine: proxies, path forking, inlining of real callees, spec tables']
@@ -1182,10 +1509,8 @@ ASSUMPTIONS = ['A-REAL: floats are mathematical reals; non-finite values are val
                'A-INT: integers are mathematical',
                'A-LOG: warnings.warn has no effect on program state',
                'scalar summaries and parameters (1-D outputs), observed summaries of shape (1,) as ELFI produces for one observed data set',
-               'fit is called on a fresh adjustment object (regression_models empty): adjust_posterior with the string specification always does; '
-               're-fitting one RegressionAdjustment instance appends new models behind the old ones while adjust() reads the first ones (observed natively, reported, outside the quantifier of the statement)',
-               'compare_models: each Sample satisfies its class invariant len(discrepancies) == n_samples; n_sim >= 1; the python list of models has concrete length 2 or 3, '
-               'lists of summary / parameter names have concrete lengths 1-3 (array lengths, values, sizes, n_sim and weights are symbolic)',
+               'compare_models: each Sample satisfies its class invariant len(discrepancies) == n_samples; n_sim >= 1; at least one model; lists of summary / parameter '
+               'names have concrete lengths 1-3 (array lengths, values, sizes, n_sim and weights are symbolic); division obligations and the permutation lemma: model lists of length 2 and 3',
                'compare_models sums to one only if sum_j p_j != 0: proved (with 0 <= probability <= 1) for non-empty samples and positive prior weights, and as an implication for arbitrary weights']
 NOT_PROVED = ['is unaffected by an invertible affine re-expression of the summaries']
 # Paper argument for the clause above (bounded stand-in checks it numerically): OLS with intercept on regressors D (k x m, full column rank after
@@ -1224,6 +1549,11 @@ def sanity():
     idx = np.argsort(d)
     out.append(('argsort is a permutation that sorts ascending', bool(sorted(idx.tolist()) == [0, 1, 2, 3] and (np.diff(d[idx]) >= 0).all())))
     out.append(('X.dot(b) is the per-row sum of products', bool(np.allclose(np.arange(6.0).reshape(3, 2).dot(np.array([2.0, -1.0])), [-1.0, 1.0, 3.0]))))
+    parts = [np.array([1.0, 2.0]), np.array([]), np.array([3.0]), np.array([4.0, 5.0, 6.0])]
+    cat, off = np.concatenate(parts), np.concatenate([[0], np.cumsum([len(q) for q in parts])])
+    out.append(('np.concatenate lays block j out at the prefix sum of the earlier lengths',
+                bool(len(cat) == off[-1] and all(cat[off[j] + t] == parts[j][t] for j in range(4) for t in range(len(parts[j]))))))
+    out.append(('python min() of a non-empty list is an attained lower bound', min([3, 1, 2]) == 1))
     out.append(('python all() over a numpy bool array / a list of bools', all(np.array([True, True])) is True and not all([True, np.False_])))
     return out
 
